@@ -455,6 +455,42 @@ def _check_o3(prog: Program, L: Ledger, irun: FuncInfo, cfg, lt, steps_param: st
                 L.ok("O3", f"{cons}[iters={iters},entry={env}]", f"{irun.module.relpath}:{startup_if.lineno}")
     if n_checked == 0:
         raise AnalysisError("irun: no path executes the start-up block")
+    # O3 (other writers): a method other than irun / the constructor / from_dict that assigns one of the guard's flags must
+    # not re-arm the start-up block: with the assigned value the guard is false for every step count a finished call can leave
+    n_w = 0
+    drv_classes = set(prog.subclasses(prog.cls("Driver")))
+    for fi_w in prog.iter_functions():
+        if fi_w.cls not in drv_classes or fi_w.name in ("irun", "__init__", "from_dict") or fi_w.node is irun.node:
+            continue
+        for a in walk_no_nested(fi_w.node):
+            if not isinstance(a, ast.Assign):
+                continue
+            for t in a.targets:
+                tt = norm(t)
+                if tt not in flags:
+                    continue
+                n_w += 1
+                for sc in (0, 1, 3):
+                    for fv in itertools.product([False, True], repeat=len(flags)):
+                        env = {"self.step_count": sc, **dict(zip(flags, fv))}
+                        if bool(ev(guard, env)) == in_body:
+                            continue  # not a state a completed start-up leaves behind
+                        try:
+                            env2 = dict(env)
+                            env2[tt] = ev(a.value, env)
+                            rearmed = bool(ev(guard, {k: v for k, v in env2.items() if k in attrs})) == in_body
+                        except (Raises, PredUnsupported) as exc:
+                            raise AnalysisError(f"{fi_w.qualname}: `{norm(a)}` writes the start-up flag with a value that is not decided: {exc}") from exc
+                        if rearmed:
+                            L.violation("O3", f"{fi_w.qualname}:startup-rearmed", f"{fi_w.module.relpath}:{a.lineno}",
+                                        f"`{norm(a)}` leaves the start-up guard `{gtxt}` true again (state before: {env}): the next run/irun on the same driver repeats the header and the step-0 observer call",
+                                        f"{fi_w.name}(k) then run(n): header twice, observers due at the split step called twice", gtxt)
+                            break
+                    else:
+                        continue
+                    break
+                else:
+                    L.ok("O3", f"{fi_w.qualname}:startup-flag-write", f"{fi_w.module.relpath}:{a.lineno}")
     # header precedes the observer call inside the block
     # (execution order = pre-order of the normalised block; line numbers mean nothing once helpers were inlined)
     seq = []
